@@ -10,8 +10,9 @@ from vlib import drive
 PROPERTY = "C17"
 RULE = ("twin: dimension-wise density estimation (SpatiallyAdaptiveSingleDimensions2 + DensityEstimation on a "
         "GlobalTrapezoidalGrid without boundary points) is run twice on the same data (2D, thorough also 3D; 20-80 samples; "
-        "uniform / clustered / snapped-to-grid-lines inside (0,1)^d with pre_scaled_data=True, or raw data that the library "
-        "min-max scales itself), lambda, class signs on/off, mass lumping on/off, rebalancing on/off, (lmin,lmax) in "
+        "uniform / clustered / snapped-to-grid-lines / 'lattice' = copies of M/5 distinct sites, half of them on k/16 "
+        "(exact duplicates whose labels are drawn independently per copy, so one site carries both labels) inside (0,1)^d with "
+        "pre_scaled_data=True, or raw data that the library min-max scales itself), lambda, class signs on/off, mass lumping on/off, rebalancing on/off, (lmin,lmax) in "
         "{(2,4),(2,5),(3,4),(3,5)}, with reuse_old_values False and True; the refinement decisions of both runs come from the "
         "same scripted decision tape, so the histories are identical by construction. 40% of the cases are 'directed': "
         "lmin=3,lmax=5 (grids of 105..225 points, the last-set grid >=200 so that every sa(points) takes the large "
@@ -26,7 +27,8 @@ RULE = ("twin: dimension-wise density estimation (SpatiallyAdaptiveSingleDimensi
         "or some component grid changed a coordinate at unchanged shape between two consecutive evaluations whose "
         "interpolations both took the >=200 branch. "
         "paths: one grid (dimension-wise refined dyadic stripes with 150-260 interior points, or a uniform level vector "
-        "with 105-381 points) + data + random surpluses; the library's small-grid and large-grid branches of "
+        "with 105-381 points) + data (inside / on grid lines / extremes on the boundary / 'lattice' duplicates with per-copy "
+        "labels) + random surpluses; the library's small-grid and large-grid branches of "
         "calculate_B_dimension_wise / calculate_B / interpolate_points_component_grid are BOTH executed on that same grid "
         "(harness-only copies of the library functions whose local constant `threshold = 200` is replaced by 0 or 10**9; the "
         "unmodified function must reproduce the forced branch of its size class bit for bit) and compared with each other; "
@@ -99,6 +101,16 @@ def ref_interp(alphas, stripes, pts):
 # ------------------------------------------------------------------------------------------------------------
 # data
 # ------------------------------------------------------------------------------------------------------------
+def mixed_duplicates(x, signs):
+    """(number of sites that occur more than once, number of those whose copies carry both labels)"""
+    groups = {}
+    for j, row in enumerate(np.asarray(x)):
+        groups.setdefault(tuple(float(v) for v in row), []).append(j)
+    dup = [g for g in groups.values() if len(g) > 1]
+    mixed = 0 if signs is None else sum(1 for g in dup if len(set(float(signs[j]) for j in g)) > 1)
+    return len(dup), mixed
+
+
 def make_data(case):
     """returns (data handed to the library, pre_scaled flag, signs or None, evaluation points)"""
     rng = np.random.default_rng(case["rng"])
@@ -117,6 +129,14 @@ def make_data(case):
             lev = int(rng.integers(1, 6))
             x[j, d] = int(rng.integers(1, 2 ** lev)) / 2.0 ** lev
         x[k, :] = [int(rng.integers(1, 8)) / 8.0 for _ in range(dim)]
+    if kind == "lattice":                   # few distinct sites (discrete features): exact duplicates are frequent
+        n_sites = max(3, M // 5)
+        sites = rng.uniform(0.02, 0.98, size=(n_sites, dim))
+        for j in range(0, n_sites, 2):      # every other site on a coarse lattice
+            sites[j] = rng.integers(1, 16, size=dim) / 16.0
+        pick = rng.integers(0, n_sites, size=M)
+        pick[0] = pick[1] = 0               # samples 0 and 1 (labels +1 and -1 below) are copies of one site
+        x = sites[pick]
     pre_scaled = True
     if kind == "minmax":                    # raw data; the library scales it to [0,1] itself (extremes land on 0 and 1)
         shift = rng.uniform(-3, 3, size=dim)
@@ -383,6 +403,14 @@ def run_twin(case):
         out.cls("interpolation-large-branch")
     if case.get("directed"):
         out.cls("directed-one-sided-refinement")
+    data_, _, signs_, _ = make_data(case)
+    ndup, nmixed = mixed_duplicates(data_, signs_)
+    if ndup:
+        out.cls("duplicate-sites")
+    if nmixed:
+        out.cls("duplicate-sites-with-mixed-labels")
+        if s["big"]:
+            out.cls("duplicate-sites-with-mixed-labels-on-grid>=200")
     out.cls("evals=%d" % min(s["evals"], 4), "data=%s" % case["data"], "classes=%s" % case["classes"],
             "masslumping=%s" % case["masslumping"], "rebalancing=%s" % case["rebalancing"], "d=%d" % case["dim"],
             "lmin,lmax=%d,%d" % (case["lmin"], case["lmax"]))
@@ -404,9 +432,9 @@ def twin_strategy(tier):
     @st.composite
     def s(draw):
         directed = draw(st.sampled_from([False, False, False, True, True]))
-        common = dict(M=draw(st.integers(20, 80)),
-                      data=draw(st.sampled_from(["uniform", "clustered", "snapped", "minmax", "minmax"])),
-                      classes=draw(st.booleans()), lambd=draw(st.sampled_from([0.01, 0.0, 1e-4, 0.1, 1.0])),
+        kind = draw(st.sampled_from(["uniform", "clustered", "snapped", "minmax", "minmax", "lattice", "lattice"]))
+        common = dict(M=draw(st.integers(20, 80)), data=kind,
+                      classes=draw(st.sampled_from([True, True, True, False]) if kind == "lattice" else st.booleans()), lambd=draw(st.sampled_from([0.01, 0.0, 1e-4, 0.1, 1.0])),
                       safety=draw(st.sampled_from([0.1, 0.0, 0.2])), rng=draw(st.integers(0, 10 ** 6)))
         if directed:
             # one-sided refinement towards a point next to a domain end on grids beyond the threshold, default rebalancing:
@@ -501,6 +529,17 @@ def paths_data(case, stripes, rng):
             d = int(rng.integers(0, dim))
             x[j, d] = stripes[d][int(rng.integers(1, len(stripes[d]) - 1))]
         x[M // 4 + 1] = [stripes[d][int(rng.integers(1, len(stripes[d]) - 1))] for d in range(dim)]
+    if case["data"] == "lattice":                   # few distinct sites -> exact duplicates; labels are drawn per copy
+        n_sites = max(3, M // 5)
+        sites = rng.uniform(0.0, 1.0, size=(n_sites, dim))
+        for j in range(0, n_sites, 3):              # some sites are grid points, some lie on one grid line
+            sites[j] = [stripes[d][int(rng.integers(1, len(stripes[d]) - 1))] for d in range(dim)]
+        for j in range(1, n_sites, 3):
+            d = int(rng.integers(0, dim))
+            sites[j, d] = stripes[d][int(rng.integers(1, len(stripes[d]) - 1))]
+        pick = rng.integers(0, n_sites, size=M)
+        pick[0] = pick[1] = 2 if n_sites > 2 else 0
+        x = sites[pick]
     if case["data"] == "edge":                      # what the library's own min-max scaling produces: extremes on 0 and 1
         for d in range(dim):
             x[int(np.argmin(x[:, d])), d] = 0.0
@@ -589,7 +628,12 @@ def run_paths(case):
     d2, r2 = _cmp_paths(out, sub, "interpolation-" + case["kind"], i_small, i_large, ref_interp(alphas, stripes, pts), tag)
     aniso = len(set(len(s) for s in stripes)) > 1
     nonuni = not uniform and any(len(set(np.round(np.diff(s), 12))) > 1 for s in stripes)
-    out.nontrivial = 150 <= N <= 260 and (aniso or nonuni) and case["data"] in ("snapped", "edge")
+    out.nontrivial = 150 <= N <= 260 and (aniso or nonuni) and case["data"] in ("snapped", "edge", "lattice")
+    ndup, nmixed = mixed_duplicates(data, signs)
+    if ndup:
+        out.cls("duplicate-sites")
+    if nmixed:
+        out.cls("duplicate-sites-with-mixed-labels")
     out.cls("kind=%s" % case["kind"], "N>=200" if N >= THRESHOLD else "N<200", "data=%s" % case["data"],
             "classes=%s" % case["classes"], "d=%d" % dim)
     if case["boundary_pts"]:
@@ -609,8 +653,9 @@ def paths_strategy(tier):
     def s(draw):
         dim = draw(st.sampled_from([2, 2, 3]))
         kind = draw(st.sampled_from(["dw", "dw", "uniform"]))
-        case = dict(kind=kind, M=draw(st.integers(20, 80)), data=draw(st.sampled_from(["snapped", "edge", "inside"])),
-                    classes=draw(st.booleans()), npts=draw(st.integers(12, 40)), boundary_pts=draw(st.booleans()),
+        dkind = draw(st.sampled_from(["snapped", "edge", "inside", "lattice", "lattice"]))
+        case = dict(kind=kind, M=draw(st.integers(20, 80)), data=dkind,
+                    classes=draw(st.sampled_from([True, True, True, False]) if dkind == "lattice" else st.booleans()), npts=draw(st.integers(12, 40)), boundary_pts=draw(st.booleans()),
                     rng=draw(st.integers(0, 10 ** 6)))
         if kind == "uniform":
             case["levelvec"] = list(draw(st.sampled_from(UNIFORM_2D if dim == 2 else UNIFORM_3D)))
